@@ -1,7 +1,522 @@
-//! C31 — not implemented yet.
-use vcore::Ctx;
+//! C31 — dependency resolution is deterministic and picks the best version.
+//!
+//! Generator (`plan.rs`): a universe of 2-6 local git repositories, each a
+//! Veryl project (sometimes two projects in one repository) with a release
+//! history published through the real `Metadata::publish` / `bump_version`,
+//! local path projects, and a root project; then a history: resolve, publish
+//! new releases, edit requirements / aliases, delete the lock file, clear the
+//! cache, `veryl update`, resolve again.
+//!
+//! Execution (`worker.rs`, one child process per case with its own
+//! `XDG_CACHE_HOME`): every resolution is done the way `Metadata::update_lockfile`
+//! and `CmdUpdate::exec` do it, three times: run A, run B from the restored
+//! state (same API in a fresh thread = fresh hash keys, or the real `veryl`
+//! binary, or with an emptied cache), run C on top (re-resolution with
+//! nothing changed).
+//!
+//! Oracle (`model.rs`): reference resolver written from the property text.
 
-pub fn run(_ctx: &Ctx) {
-    println!("INCONCLUSIVE property=C31: check not implemented");
-    std::process::exit(2);
+use crate::model::{self, Fail, PLock, Rel, Shape, World};
+use crate::plan::{self, Event, Plan};
+use semver::Version;
+use serde_json::Value;
+use std::collections::BTreeSet;
+use std::time::Duration;
+use vcore::util::Scratch;
+use vcore::{CaseCfg, Ctx, Draw, Outcome, hash_str, json};
+
+/// signatures of the hash-order findings that non-strict cases exclude
+const EXCLUDED_UNLESS_STRICT: &[&str] = &[
+    "nondeterministic-lock-names",
+    "nondeterministic-dependencies-order",
+    "nondeterministic-lockfile-text",
+];
+
+#[derive(Clone, Debug)]
+struct DiskInfo {
+    /// declaration epoch of the run whose result the lock file on disk holds
+    epoch: u64,
+    /// every pick in it was the highest release at `releases`
+    all_highest: bool,
+    releases: usize,
+}
+
+struct Eval<'a> {
+    world: World<'a>,
+    epoch: u64,
+    releases: usize,
+    fails: Vec<Fail>,
+    excluded: BTreeSet<String>,
+    classes: BTreeSet<String>,
+    diamond: bool,
+    alias: bool,
+    strict: bool,
+}
+
+impl<'a> Eval<'a> {
+    fn fail(&mut self, sig: &str, msg: String) {
+        if !self.strict && EXCLUDED_UNLESS_STRICT.contains(&sig) {
+            self.excluded.insert(sig.to_string());
+            return;
+        }
+        self.fails.push((sig.to_string(), msg));
+    }
+
+    /// one run (A, B or C of a resolve event); returns its result table
+    fn eval_run(
+        &mut self,
+        tag: &str,
+        run: &Value,
+        force: bool,
+        t0_fallback: Option<&Vec<PLock>>,
+        disk: &mut Option<DiskInfo>,
+    ) -> Option<Vec<PLock>> {
+        let is_cli = run.get("cli").and_then(|b| b.as_bool()).unwrap_or(false);
+        if let Some(p) = run.get("panic").and_then(|p| p.as_str()) {
+            self.fail("panic-in-resolution", format!("run {tag}: {p}"));
+            return None;
+        }
+        if run.get("timeout").is_some() {
+            self.classes.insert("cli-timeout".into());
+            return None;
+        }
+        let ok = run.get("ok").and_then(|b| b.as_bool()).unwrap_or(false);
+        let existed = run.get("existed").and_then(|b| b.as_bool()).unwrap_or(false);
+        let t0: Vec<PLock> = if existed {
+            match run.get("t0") {
+                Some(t) => match model::parse_table(t) {
+                    Ok(t) => t,
+                    Err(e) => {
+                        self.fail("harness:table", format!("run {tag}: {e}"));
+                        return None;
+                    }
+                },
+                None => t0_fallback.cloned().unwrap_or_default(),
+            }
+        } else {
+            vec![]
+        };
+        // declarations unchanged since the run that wrote the lock file?
+        let unchanged = existed
+            && disk
+                .as_ref()
+                .map(|d| d.epoch == self.epoch && (!force || (d.all_highest && d.releases == self.releases)))
+                .unwrap_or(false);
+        if !ok {
+            let err = run.get("error").cloned().unwrap_or(Value::Null);
+            let kind = err.get("kind").and_then(|k| k.as_str()).unwrap_or("?").to_string();
+            let stage = err.get("stage").and_then(|k| k.as_str()).unwrap_or("?").to_string();
+            let text = err.get("text").and_then(|k| k.as_str()).unwrap_or("").to_string();
+            let (kinds, _some_ok, complete) = self.world.possible_errors(&t0, force);
+            if unchanged {
+                self.fail(
+                    &format!("error-although-declarations-unchanged:{kind}"),
+                    format!("run {tag} (update={force}): nothing was edited since the lock file was written, yet resolution fails at {stage}: {text}"),
+                );
+            } else if kinds.contains(kind.as_str()) {
+                self.classes.insert(format!("expected-error:{kind}"));
+            } else if !complete {
+                self.classes.insert("error-not-decided (too many lock choices)".into());
+            } else {
+                self.fail(
+                    &format!("spurious-error:{kind}"),
+                    format!(
+                        "run {tag} (update={force}, cli={is_cli}): resolution fails at {stage} with {kind}: {text}; the reference finds {}",
+                        if kinds.is_empty() { "a solution and no error".to_string() } else { format!("only {kinds:?} possible") }
+                    ),
+                );
+            }
+            return None;
+        }
+        let Some(t1v) = run.get("t1") else {
+            self.fail("harness:table", format!("run {tag}: no table"));
+            return None;
+        };
+        let t1 = match model::parse_table(t1v) {
+            Ok(t) => t,
+            Err(e) => {
+                self.fail("harness:table", format!("run {tag}: {e}"));
+                return None;
+            }
+        };
+        // 1. every pick obeys the property, names distinct, table = closure
+        let mut shape = Shape::default();
+        match self.world.validate(&t0, &t1, force, &mut shape) {
+            Ok(()) => {
+                self.classes.extend(shape.classes);
+                self.diamond |= shape.diamond;
+                self.alias |= shape.alias;
+            }
+            Err((sig, msg)) => {
+                let msg = format!(
+                    "run {tag} (update={force}, cli={is_cli}): {msg}\n  lock table before: {}\n  lock table after:  {}",
+                    model::show_table(&t0),
+                    model::show_table(&t1)
+                );
+                self.fail(&sig, msg);
+            }
+        }
+        // 2. save -> load
+        if let Some(e) = run.get("roundtrip_error") {
+            self.fail("save-load-fails", format!("run {tag}: {e}"));
+        } else if let Some(t2) = run.get("t2") {
+            match model::compare_roundtrip(t1v, t2) {
+                Ok(true) => {}
+                Ok(false) => {
+                    self.classes.insert("save-load: order among equal locks changed".into());
+                }
+                Err((sig, msg)) => self.fail(&sig, format!("run {tag}: {msg}")),
+            }
+        }
+        // 3. the reported modification
+        let modified = run.get("modified").and_then(|m| m.as_bool());
+        if let Some(m) = modified {
+            let changed = model::identities(&t0) != model::identities(&t1);
+            if m != changed {
+                self.fail(
+                    if m { "modified-reported-but-same-dependencies" } else { "modification-not-reported" },
+                    format!(
+                        "run {tag} (update={force}): update() returned {m}, dependency set {}: before {} after {}",
+                        if changed { "changed" } else { "is the same" },
+                        model::show_table(&t0),
+                        model::show_table(&t1)
+                    ),
+                );
+            }
+            if unchanged && m {
+                self.fail(
+                    "modified-although-declarations-unchanged",
+                    format!(
+                        "run {tag} (update={force}): no declaration was edited since the lock file was written{}, yet update() reports a modification: before {} after {}",
+                        if force { " and nothing was published" } else { "" },
+                        model::show_table(&t0),
+                        model::show_table(&t1)
+                    ),
+                );
+            }
+            if unchanged {
+                self.classes.insert(if force { "unchanged:update-twice".into() } else { "unchanged:re-resolve".into() });
+            }
+        }
+        // the lock file now holds this result
+        let all_highest = if !existed || force {
+            true
+        } else {
+            disk.as_ref()
+                .map(|d| d.all_highest && d.releases == self.releases && d.epoch == self.epoch)
+                .unwrap_or(false)
+        };
+        if !is_cli || modified.is_some() || !existed {
+            *disk = Some(DiskInfo { epoch: self.epoch, all_highest, releases: self.releases });
+        } else {
+            // CLI run: whether it rewrote the file is not observed; the file
+            // holds a valid result for the current declarations either way
+            *disk = Some(DiskInfo { epoch: self.epoch, all_highest: false, releases: self.releases });
+        }
+        Some(t1)
+    }
+
+    fn compare_runs(&mut self, ra: &Value, rb: &Value, ta: &Option<Vec<PLock>>, tb: &Option<Vec<PLock>>, text_a: &Value, text_b: &Value) {
+        let oka = ra.get("ok").and_then(|b| b.as_bool()).unwrap_or(false);
+        let okb = rb.get("ok").and_then(|b| b.as_bool()).unwrap_or(false);
+        if rb.get("timeout").is_some() {
+            return;
+        }
+        if oka != okb {
+            self.fail(
+                "nondeterministic-outcome",
+                format!(
+                    "from one state: run A {} , run B {}",
+                    if oka { "succeeds".to_string() } else { format!("fails: {}", ra.get("error").unwrap_or(&Value::Null)) },
+                    if okb { "succeeds".to_string() } else { format!("fails: {}", rb.get("error").unwrap_or(&Value::Null)) }
+                ),
+            );
+            return;
+        }
+        let (Some(ta), Some(tb)) = (ta, tb) else { return };
+        if model::canon_table(ta, false, true) != model::canon_table(tb, false, true) {
+            self.fail(
+                "nondeterministic-resolution",
+                format!("from one state: run A gives {} , run B gives {}", model::show_table(ta), model::show_table(tb)),
+            );
+            return;
+        }
+        if let (Some(ma), Some(mb)) = (ra.get("modified").and_then(|m| m.as_bool()), rb.get("modified").and_then(|m| m.as_bool())) {
+            if ma != mb {
+                self.fail("nondeterministic-modified-flag", format!("run A modified={ma}, run B modified={mb}"));
+            }
+        }
+        if model::canon_table(ta, true, true) != model::canon_table(tb, true, true) {
+            self.fail(
+                "nondeterministic-lock-names",
+                format!(
+                    "from one state the same dependencies get different project names: run A {} , run B {}",
+                    model::show_table(ta),
+                    model::show_table(tb)
+                ),
+            );
+            return;
+        }
+        if model::canon_table(ta, true, false) != model::canon_table(tb, true, false) {
+            self.fail(
+                "nondeterministic-dependencies-order",
+                format!("the `dependencies` lists of the locks come in a different order: run A {} , run B {}", model::show_table(ta), model::show_table(tb)),
+            );
+            return;
+        }
+        let cli = rb.get("cli").is_some();
+        if !cli && text_a != text_b {
+            self.fail(
+                "nondeterministic-lockfile-text",
+                format!("same table, different Veryl.lock text:\n--- run A\n{}\n--- run B\n{}", text_a.as_str().unwrap_or("-"), text_b.as_str().unwrap_or("-")),
+            );
+        }
+    }
+}
+
+fn release_kind(old: &[Rel], new: &Version) -> &'static str {
+    let Some(max) = old.iter().map(|r| &r.version).max() else { return "first" };
+    if !new.pre.is_empty() {
+        "pre-release"
+    } else if new < max {
+        "back-port"
+    } else if new.major > max.major {
+        "major"
+    } else if new.minor > max.minor {
+        "minor"
+    } else {
+        "patch"
+    }
+}
+
+fn decide(plan: &Plan, base: &str, log: &Value) -> (Vec<Fail>, BTreeSet<String>, bool, BTreeSet<String>) {
+    let np = plan.projects.len();
+    let mut ev = Eval {
+        world: World {
+            plan,
+            base: base.to_string(),
+            rels: vec![vec![]; np],
+            root: vec![],
+            local_decls: vec![vec![]; plan.locals.len()],
+        },
+        epoch: 0,
+        releases: 0,
+        fails: vec![],
+        excluded: BTreeSet::new(),
+        classes: BTreeSet::new(),
+        diamond: false,
+        alias: false,
+        strict: plan.strict_det,
+    };
+    let entries = log.get("log").and_then(|l| l.as_array()).cloned().unwrap_or_default();
+    let mut disk: Option<DiskInfo> = None;
+    let mut resolves = 0usize;
+    let mut pending_release_kinds: BTreeSet<String> = BTreeSet::new();
+    let mut pending_edits: BTreeSet<String> = BTreeSet::new();
+    let mut rereso_after_release = false;
+    for e in &entries {
+        let Some(i) = e.get("event").and_then(|i| i.as_u64()) else { continue };
+        let Some(event) = plan.events.get(i as usize) else { continue };
+        match event {
+            Event::Release { proj, version, decls, via_bump } => {
+                let revision = e.get("revision").and_then(|r| r.as_str()).unwrap_or("").to_string();
+                let Ok(ver) = Version::parse(version) else { continue };
+                if resolves > 0 {
+                    pending_release_kinds.insert(format!("re-resolve after release:{}", release_kind(&ev.world.rels[*proj], &ver)));
+                }
+                if via_bump.is_some() {
+                    ev.classes.insert("published via bump_version".into());
+                }
+                ev.world.rels[*proj].push(Rel { version: ver, revision, decls: decls.clone() });
+                ev.releases += 1;
+            }
+            Event::SetRoot { decls } => {
+                if resolves > 0 {
+                    pending_edits.insert("re-resolve after root edit".into());
+                }
+                ev.world.root = decls.clone();
+                ev.epoch += 1;
+            }
+            Event::SetLocal { local, decls } => {
+                if resolves > 0 {
+                    pending_edits.insert("re-resolve after path-project edit".into());
+                }
+                ev.world.local_decls[*local] = decls.clone();
+                ev.epoch += 1;
+            }
+            Event::DeleteLock => {
+                disk = None;
+                if resolves > 0 {
+                    pending_edits.insert("re-resolve after lock file deleted".into());
+                }
+            }
+            Event::ClearCache => {
+                if resolves > 0 {
+                    pending_edits.insert("re-resolve after cache cleared".into());
+                }
+            }
+            Event::Resolve { force, recheck_force, cli, cold_twin } => {
+                resolves += 1;
+                if *force {
+                    ev.classes.insert("mode:veryl-update".into());
+                } else {
+                    ev.classes.insert("mode:build".into());
+                }
+                if *cli {
+                    ev.classes.insert("twin:real-cli".into());
+                }
+                if *cold_twin {
+                    ev.classes.insert("twin:cold-cache".into());
+                }
+                let (ra, rb, rc) = (
+                    e.get("a").cloned().unwrap_or(Value::Null),
+                    e.get("b").cloned().unwrap_or(Value::Null),
+                    e.get("c").cloned().unwrap_or(Value::Null),
+                );
+                let before = disk.clone();
+                let mut disk_a = before.clone();
+                let ta = ev.eval_run("A", &ra, *force, None, &mut disk_a);
+                let t0a: Option<Vec<PLock>> = ra.get("t0").and_then(|t| model::parse_table(t).ok());
+                let mut disk_b = before.clone();
+                let tb = ev.eval_run("B", &rb, *force, t0a.as_ref(), &mut disk_b);
+                ev.compare_runs(
+                    &ra,
+                    &rb,
+                    &ta,
+                    &tb,
+                    e.get("lock_after_a").unwrap_or(&Value::Null),
+                    e.get("lock_after_b").unwrap_or(&Value::Null),
+                );
+                let _tc = ev.eval_run("C", &rc, *recheck_force, None, &mut disk_b);
+                disk = disk_b;
+                if ta.is_some() {
+                    if !pending_release_kinds.is_empty() {
+                        rereso_after_release = true;
+                    }
+                    ev.classes.extend(std::mem::take(&mut pending_release_kinds));
+                    ev.classes.extend(std::mem::take(&mut pending_edits));
+                }
+            }
+        }
+    }
+    if plan.command_backend {
+        ev.classes.insert("backend:git-command".into());
+    }
+    if ev.strict {
+        ev.classes.insert("determinism:strict (names, order, text)".into());
+    }
+    for x in &ev.excluded {
+        ev.classes.insert(format!("excluded-known:{x}"));
+    }
+    if ev.diamond {
+        ev.classes.insert("NT:diamond".into());
+    }
+    if ev.alias {
+        ev.classes.insert("NT:alias".into());
+    }
+    if rereso_after_release {
+        ev.classes.insert("NT:re-resolution-after-release".into());
+    }
+    let nt = (ev.diamond || ev.alias) && rereso_after_release;
+    (ev.fails, ev.classes, nt, ev.excluded)
+}
+
+pub fn run_plan(plan: &Plan, keep: bool) -> Result<(Scratch, Value), String> {
+    let mut scratch = Scratch::new("c31");
+    if keep {
+        scratch.keep();
+    }
+    let dir = scratch.path.clone();
+    std::fs::write(dir.join("plan.json"), serde_json::to_string(plan).unwrap()).map_err(|e| e.to_string())?;
+    std::fs::create_dir_all(dir.join("home")).map_err(|e| e.to_string())?;
+    let exe = std::env::current_exe().map_err(|e| e.to_string())?;
+    let cache = dir.join("cache");
+    let home = dir.join("home");
+    let ceiling = dir.to_string_lossy().to_string();
+    let mut env: Vec<(&str, &str)> = vec![
+        ("XDG_CACHE_HOME", cache.to_str().unwrap()),
+        ("HOME", home.to_str().unwrap()),
+        ("GIT_CONFIG_GLOBAL", "/dev/null"),
+        ("GIT_CONFIG_NOSYSTEM", "1"),
+        ("GIT_CEILING_DIRECTORIES", &ceiling),
+        ("GIT_AUTHOR_NAME", "veryl"),
+        ("GIT_AUTHOR_EMAIL", "veryl@example.invalid"),
+        ("GIT_COMMITTER_NAME", "veryl"),
+        ("GIT_COMMITTER_EMAIL", "veryl@example.invalid"),
+        ("GIT_AUTHOR_DATE", "2024-01-01T00:00:00Z"),
+        ("GIT_COMMITTER_DATE", "2024-01-01T00:00:00Z"),
+        ("RUST_LOG", "off"),
+    ];
+    if plan.command_backend {
+        env.push(("VERYL_GIT_BACKEND", "command"));
+    } else {
+        env.push(("VERYL_GIT_BACKEND", "auto"));
+    }
+    let r = vcore::util::run_cmd(
+        exe.to_str().unwrap(),
+        &["--worker", dir.to_str().unwrap()],
+        &dir,
+        &env,
+        Duration::from_secs(1500),
+    );
+    if r.timed_out {
+        return Err("worker timed out".into());
+    }
+    if r.code != Some(0) {
+        return Err(format!("worker exit {:?} signal {:?}: {}", r.code, r.signal, r.stderr.chars().take(500).collect::<String>()));
+    }
+    let text = std::fs::read_to_string(dir.join("log.json")).map_err(|e| format!("log: {e}"))?;
+    let log: Value = serde_json::from_str(&text).map_err(|e| format!("log: {e}"))?;
+    Ok((scratch, log))
+}
+
+fn case(d: &mut Draw, thorough: bool, known: &[String]) -> Outcome {
+    let plan = plan::generate(d, thorough);
+    let text = plan.describe();
+    let (scratch, log) = match run_plan(&plan, false) {
+        Ok(x) => x,
+        Err(e) => {
+            let short: String = e.chars().take(60).collect();
+            return Outcome::skip(format!("worker: {short}"));
+        }
+    };
+    if let Some(f) = log.get("fatal").and_then(|f| f.as_str()) {
+        // building the universe failed: nothing of C31 was exercised
+        let short: String = f.split(':').take(3).collect::<Vec<_>>().join(":").chars().take(80).collect();
+        return Outcome::skip(format!("universe: {short}"));
+    }
+    let base = scratch.path.join("u").to_string_lossy().to_string();
+    let (fails, classes, nt, _excluded) = decide(&plan, &base, &log);
+    drop(scratch);
+    if !fails.is_empty() {
+        // an unlisted disagreement first, listed findings otherwise
+        let pick = fails.iter().find(|(s, _)| !known.contains(s)).unwrap_or(&fails[0]);
+        let others: Vec<&String> = fails.iter().map(|(s, _)| s).collect();
+        return Outcome::fail(
+            pick.0.clone(),
+            format!("{}\n(all disagreements of this case: {others:?})\n{}", pick.1, text),
+            json!({"plan": plan, "describe": text}),
+        );
+    }
+    Outcome::pass(hash_str(&text), nt, classes.into_iter().collect(), text)
+}
+
+pub fn run(ctx: &Ctx) {
+    let thorough = !ctx.is_quick();
+    let n = ctx.scale(80, 3000);
+    let known: Vec<String> = ctx.findings().iter().filter(|f| f.status == "known").map(|f| f.key.clone()).collect();
+    ctx.run(
+        "universe",
+        CaseCfg::cases(n).choices(1500).timeout_s(3000).shrink_iters(40),
+        |d: &mut Draw| case(d, thorough, &known),
+    );
+    ctx.assume("requirement matching and version order are those of the `semver` crate (the reference resolver uses the same crate to decide `satisfies` and `highest`)");
+    ctx.assume("`the locked release` of a dependency = any release of the same project locked for the same repository that satisfies the requirement (the lock file keeps one table per repository); the `no modification` clause decides where that freedom would change the result");
+    ctx.assume("published releases declare only git dependencies that were resolvable when they were published (`veryl publish` refuses path dependencies and resolves before publishing); dependency graphs of published projects are acyclic");
+    ctx.assume("two root declarations that resolve to one release with the same properties are rejected by design (InvalidDependency); not counted as a violation");
+    ctx.assume("releases are created by the real Metadata::publish / bump_version in the worker process; resolutions replicate Metadata::update_lockfile (build) and CmdUpdate::exec (veryl update) call by call");
+    ctx.finish(
+        "exploration",
+        "each case = a generated universe of local git repositories with release histories + a root project + a history of resolve / publish / edit steps; every resolution is run three times (A, B from the same state, C on top). Non-trivial = at least one diamond or alias in a validated lock table and at least one successful re-resolution after a new release; distinct by the text of the case",
+    );
 }
